@@ -1,9 +1,9 @@
 /-
-  OFV.Lemmas.ParseHeader — common/header.go decoders never spin on frames of at most 65535 bytes
-  (Header, HelloElemHeader, HelloElemVersionBitmap, Hello), and the concrete 65544-byte Hello frame on which
-  `Parse` loops for ever (`Hello_spin`).
+  OFV.Lemmas.ParseHeader — common/header.go decoders never spin (Header, HelloElemHeader, HelloElemVersionBitmap, Hello):
+  the bitmap loop advances by 4 bytes, the element loop by the element's declared length (at least 4) rounded up to 8.
 -/
 import OFV.Lemmas.ParsePost
+set_option linter.unusedSimpArgs false
 namespace OFV.Model
 open OFV OFV.Go
 
@@ -11,219 +11,54 @@ theorem Header_unmarshal_ns (recv : V) (d : Slice) : NS (Header.unmarshal recv d
   unfold Header.unmarshal
   post_auto
 
-theorem HelloElemHeader_unmarshal_post (recv : V) (d : Slice) :
-    Post (HelloElemHeader.unmarshal recv d) (fun v => ∃ t l : UInt16, v = .obj "HelloElemHeader" [V.u16 t, V.u16 l]) := by
+theorem HelloElemHeader_unmarshal_ns (recv : V) (d : Slice) : NS (HelloElemHeader.unmarshal recv d) := by
   unfold HelloElemHeader.unmarshal
   post_auto
-  exact post_ok ⟨_, _, rfl⟩
 
-/-- the version-bitmap element decoder terminates; it reads one bitmap per 4 bytes after the element header -/
-theorem HelloElemVersionBitmap_unmarshal_post (recv : V) (d : Slice) :
-    Post (HelloElemVersionBitmap.unmarshal recv d)
-      (fun v => ∃ hdr bms, v = .obj "HelloElemVersionBitmap" [hdr, .list bms] ∧ 4 * bms.length ≤ d.len + 3) := by
+/-- the version-bitmap element decoder terminates: one bitmap per 4 bytes up to the element's declared length -/
+theorem HelloElemVersionBitmap_unmarshal_ns (recv : V) (d : Slice) : NS (HelloElemVersionBitmap.unmarshal recv d) := by
   unfold HelloElemVersionBitmap.unmarshal
   apply post_bind_ns (ns_uptoR _ _); intro d4 _
-  apply post_bind_ns (HelloElemHeader_unmarshal_post _ _).ns; intro hdr _
-  apply post_bind (goLoop_post _ _ _ (fun s => s.read = 4 + 4 * s.bms.length ∧ 4 * s.bms.length ≤ d.len + 3) d.len ?_ _ _ ?_ ?_)
-  · intro st _ hst
-    exact post_ok ⟨_, _, rfl, hst.1.2⟩
-  · intro s hI hc
-    apply post_bind_ns (ns_u32In _ _ _); intro w _
-    apply post_ok
-    simp at hc ⊢
-    omega
-  · simp
-  · simp; omega
+  apply post_bind_ns (HelloElemHeader_unmarshal_ns _ _); intro hdr _
+  extract_lets length
+  split
+  · exact post_err
+  · rename_i hlen
+    apply post_bind_ns
+    · refine (goLoop_post _ _ _ (fun _ => True) d.len ?_ _ _ trivial ?_).ns
+      · intro s _ hc
+        simp only [decide_eq_true_eq] at hc
+        apply post_bind_ns (ns_u32In _ _ _); intro w _
+        apply post_ok
+        simp only [true_and]
+        omega
+      · simp only []; omega
+    · intro st _; post_auto
 
-
-theorem HelloElemVersionBitmap_len (hdr : V) (bms : List V) (h : 4 * bms.length ≤ 65530) :
-    ∃ l : UInt16, HelloElemVersionBitmap.len (.obj "HelloElemVersionBitmap" [hdr, .list bms]) = .ok l ∧ 4 ≤ l.toNat := by
-  refine ⟨_, rfl, ?_⟩
-  simp only [n16, UInt16.toNat_add, UInt16.toNat_ofNat']
-  have : bms.length * 4 < 65536 := by omega
-  have h4 : (4 : UInt16).toNat = 4 := rfl
-  omega
-
-/-- Hello: the element loop terminates on every frame of at most 65535 bytes -/
-theorem Hello_unmarshal_ns (recv : V) (data : Slice) (hlen : data.len ≤ 65535) : NS (Hello.unmarshal recv data) := by
+/-- Hello: the element loop terminates on every input — an element advances the cursor by its declared length (at
+    least 4) rounded up to a multiple of 8 -/
+theorem Hello_unmarshal_ns (recv : V) (data : Slice) : NS (Hello.unmarshal recv data) := by
   unfold Hello.unmarshal
   apply post_bind_ns (ns_fromR _ _); intro d0 _
   cases h1 : Header.unmarshal _ d0 <;> simp only [Res.bind_ok, Res.bind_panic, Res.bind_spin]
   case panic => exact post_panic
   case spin => exact absurd h1 (Header_unmarshal_ns _ _).1
   all_goals
-    apply post_bind (goLoop_post _ _ _ (fun s => 8 ≤ s.next) data.len ?_ _ _ (Nat.le_refl 8) ?_)
-    · intro st _ _; post_auto
-    · intro s hI hc
-      simp only [decide_eq_true_eq] at hc
-      apply post_bind (P := fun d => d.len ≤ 65527) ?_ ?_
-      · refine ⟨(ns_fromR _ _).1, fun d hd => ?_⟩
-        have := fromR_inv _ _ _ hd
-        omega
-      intro d _ hd
-      have hvb : Post (match HelloElemVersionBitmap.unmarshal HelloElemVersionBitmap.new d with
-          | Res.ok v => do
-            let l ← HelloElemVersionBitmap.len v
-            pure ({ next := s.next + l.toNat, elems := s.elems ++ [v], err := false } : Hello.St)
-          | Res.err => Res.ok { next := s.next + 8, elems := s.elems ++ [HelloElemVersionBitmap.new], err := true }
-          | Res.panic => Res.panic
-          | Res.spin => Res.spin) (fun s' => 8 ≤ s'.next ∧ s.next < s'.next ∧ s.next < data.len) := by
+    apply post_bind_ns
+    · refine (goLoop_post _ _ _ (fun _ => True) data.len ?_ _ _ trivial ?_).ns
+      · intro s _ hc
+        simp only [decide_eq_true_eq] at hc
+        apply post_bind_ns (ns_fromR _ _); intro d _
+        apply post_bind_ns (HelloElemHeader_unmarshal_ns _ _); intro e _
         split
-        · rename_i v heq
-          obtain ⟨hdr, bms, rfl, hb⟩ := (HelloElemVersionBitmap_unmarshal_post _ _).2 _ heq
-          obtain ⟨l, hl, hl4⟩ := HelloElemVersionBitmap_len hdr bms (by omega)
-          rw [hl]
-          apply post_ok
-          simp only []
-          omega
-        · apply post_ok; simp only []; omega
-        · exact post_panic
-        · exact absurd ‹_› (HelloElemVersionBitmap_unmarshal_post _ _).1
-      cases h2 : HelloElemHeader.unmarshal HelloElemHeader.new d <;> simp only []
-      case panic => exact post_panic
-      case spin => exact absurd h2 (HelloElemHeader_unmarshal_post _ _).1
-      case err => exact hvb
-      case ok e =>
-        obtain ⟨t, l, rfl⟩ := (HelloElemHeader_unmarshal_post _ _).2 _ h2
-        split
-        · exact hvb
         · split
           · exact post_err
-          · apply post_ok; simp only []; omega
+          · split
+            · apply post_bind_ns (HelloElemVersionBitmap_unmarshal_ns _ _); intro v _
+              apply post_ok; simp only [true_and]; omega
+            · apply post_ok; simp only [true_and]; omega
         · exact post_panic
-    · omega
-
-/-- a loop whose every iteration succeeds, keeps `I` and advances a bounded cursor returns a final state -/
-theorem goLoop_ok {σ} (cond : σ → Bool) (cursor : σ → Nat) (body : σ → R σ) (I : σ → Prop) (bound : Nat)
-    (hstep : ∀ s, I s → cond s = true → ∃ s', body s = .ok s' ∧ I s' ∧ cursor s < cursor s' ∧ cursor s < bound) :
-    ∀ fuel s, I s → bound - cursor s < fuel → ∃ t, goLoop fuel cond cursor body s = .ok t ∧ I t ∧ cond t = false := by
-  intro fuel
-  induction fuel with
-  | zero => intro s _ h; omega
-  | succ f ih =>
-    intro s hI h
-    unfold goLoop
-    by_cases hc : cond s = true
-    · simp only [hc, if_true]
-      obtain ⟨s', hb, hI', hadv, hlt⟩ := hstep s hI hc
-      rw [hb]
-      simp only
-      rw [if_neg (by omega)]
-      exact ih s' hI' (by omega)
-    · simp only [hc]
-      exact ⟨s, rfl, hI, by simpa using hc⟩
-
-/-- a version-bitmap element decoded from 65536 bytes holds 16383 bitmaps -/
-theorem HelloElemVersionBitmap_big (recv : V) (d : Slice) (hwf : d.WF) (hlen : d.len = 65536) :
-    ∃ hdr bms, HelloElemVersionBitmap.unmarshal recv d = .ok (.obj "HelloElemVersionBitmap" [hdr, .list bms])
-      ∧ bms.length = 16383 := by
-  unfold Slice.WF at hwf
-  unfold HelloElemVersionBitmap.unmarshal
-  have h4 : d.uptoR 4 = .ok ⟨d.buf.drop 0, 4⟩ := by
-    unfold Slice.uptoR Slice.upto
-    exact Slice.sliceR_ok d 0 4 (by omega) (by omega)
-  rw [h4]
-  simp only [Res.bind_ok]
-  unfold HelloElemHeader.unmarshal
-  simp only [Nat.lt_irrefl, if_false]
-  obtain ⟨t, ht⟩ := Slice.u16In_ok ⟨d.buf.drop 0, 4⟩ 0 2 (by omega) (by simp; omega)
-  obtain ⟨l, hl⟩ := Slice.u16In_ok ⟨d.buf.drop 0, 4⟩ 2 4 (by omega) (by simp; omega)
-  rw [ht, hl]
-  simp only [Res.bind_ok]
-  obtain ⟨st, hst, hI, hc⟩ := goLoop_ok (σ := HelloElemVersionBitmap.St) (fun s => decide (s.read < d.len)) (·.read)
-    (fun s => do
-      let w ← d.u32In s.read (s.read + 4)
-      pure { read := s.read + 4, bms := s.bms ++ [V.u32 w] })
-    (fun s => s.read = 4 + 4 * s.bms.length ∧ s.read ≤ 65536) d.len
-    (by
-      intro s hI hc
-      simp only [decide_eq_true_eq] at hc
-      obtain ⟨w, hw⟩ := Slice.u32In_ok d s.read (s.read + 4) (by omega) (by omega)
-      refine ⟨_, by rw [hw]; rfl, ?_⟩
-      simp
-      omega)
-    (d.len + 1) { read := 4, bms := [] } (by simp) (by simp; omega)
-  rw [hst]
-  simp only [Res.bind_ok]
-  refine ⟨_, _, rfl, ?_⟩
-  simp only [decide_eq_false_iff_not] at hc
-  omega
-
-
-/-- COUNTEREXAMPLE.  A Hello frame of 65544 bytes whose first element is a version bitmap makes Parse loop for ever:
-    the element decoder reads 16383 bitmaps, `HelloElemVersionBitmap.Len()` = 4 + 4·16383 = 65536 wraps to 0 in uint16,
-    and `next += int(v.Len())` in `Hello.UnmarshalBinary` no longer advances (while `h.Elements` keeps growing). -/
-theorem Hello_spin (ver l1 l2 x1 x2 x3 x4 e1 e2 : UInt8) (payload : Bytes) (hp : payload.length = 65532) (depth : Nat) :
-    parse depth (Slice.exact ([ver, 0, l1, l2, x1, x2, x3, x4, 0, 1, e1, e2] ++ payload)) = .spin := by
-  have hmax : ∀ c, ∃ d, max depth (c + 1) = d + 1 := fun c => ⟨max depth (c + 1) - 1, by omega⟩
-  obtain ⟨d, hd⟩ := hmax (Slice.exact ([ver, 0, l1, l2, x1, x2, x3, x4, 0, 1, e1, e2] ++ payload)).cap
-  unfold parse
-  rw [hd]
-  generalize hb : Slice.exact ([ver, 0, l1, l2, x1, x2, x3, x4, 0, 1, e1, e2] ++ payload) = b
-  have hbuf : b.buf = [ver, 0, l1, l2, x1, x2, x3, x4, 0, 1, e1, e2] ++ payload := by rw [← hb]; rfl
-  have hlen : b.len = 65544 := by rw [← hb]; simp [Slice.exact, hp]
-  have hcap : b.buf.length = 65544 := by rw [hbuf]; simp [hp]
-  have hwf : b.WF := by unfold Slice.WF; omega
-  unfold parseD parseStep
-  have h1 : b.byteAt 1 = .ok 0 := by
-    unfold Slice.byteAt Slice.index Res.ofOption
-    simp [hlen, hbuf]
-  rw [h1]
-  simp only [Res.bind_ok]
-  have ht : (0 : UInt8).toNat = Gen.openflow13.Type_Hello := rfl
-  rw [if_pos ht]
-  -- Hello.UnmarshalBinary
-  suffices h : Hello.unmarshal (.obj "Hello" [Header.zero, .list []]) b = .spin by rw [h]; rfl
-  unfold Hello.unmarshal
-  rw [Slice.fromR_ok b 0 (by omega)]
-  simp only [Res.bind_ok]
-  have hH : ∃ h, Header.unmarshal Header.zero ⟨b.buf.drop 0, b.len - 0⟩ = .ok h := by
-    unfold Header.unmarshal
-    have hwf0 : Slice.WF ⟨b.buf.drop 0, b.len - 0⟩ := by unfold Slice.WF; simp; omega
-    obtain ⟨a0, h0⟩ := Slice.byteAt_ok ⟨b.buf.drop 0, b.len - 0⟩ hwf0 0 (by simp; omega)
-    obtain ⟨a1, h1⟩ := Slice.byteAt_ok ⟨b.buf.drop 0, b.len - 0⟩ hwf0 1 (by simp; omega)
-    obtain ⟨a2, h2⟩ := Slice.u16In_ok ⟨b.buf.drop 0, b.len - 0⟩ 2 4 (by omega) (by simp; omega)
-    obtain ⟨a3, h3⟩ := Slice.u32In_ok ⟨b.buf.drop 0, b.len - 0⟩ 4 8 (by omega) (by simp; omega)
-    rw [if_neg (by simp; omega), h0, h1, h2, h3]
-    exact ⟨_, rfl⟩
-  obtain ⟨h, hh⟩ := hH
-  rw [hh]
-  simp only [Res.bind_ok]
-  -- first iteration of the element loop
-  have hfuel : b.len + 1 = 65544 + 1 := by omega
-  rw [hfuel]
-  unfold goLoop
-  rw [if_pos (by simp [hlen])]
-  have hd8 : b.fromR 8 = .ok ⟨b.buf.drop 8, b.len - 8⟩ := Slice.fromR_ok b 8 (by omega)
-  simp only [hd8, Res.bind_ok]
-  have hdrop : b.buf.drop 8 = 0 :: 1 :: e1 :: e2 :: payload := by rw [hbuf]; rfl
-  have hwf8 : Slice.WF ⟨b.buf.drop 8, b.len - 8⟩ := by unfold Slice.WF; simp; omega
-  have hE : HelloElemHeader.unmarshal HelloElemHeader.new ⟨b.buf.drop 8, b.len - 8⟩
-      = .ok (.obj "HelloElemHeader" [.num 1, V.u16 (UInt16.ofNat (e1.toNat * 256 + e2.toNat))]) := by
-    unfold HelloElemHeader.unmarshal
-    rw [if_neg (by simp; omega)]
-    have a : Slice.u16In ⟨b.buf.drop 8, b.len - 8⟩ 0 2 = .ok 1 := by
-      unfold Slice.u16In
-      rw [Slice.sliceR_ok _ 0 2 (by omega) (by simp; omega)]
-      simp only [Res.bind_ok, hdrop]
-      rfl
-    have c : Slice.u16In ⟨b.buf.drop 8, b.len - 8⟩ 2 4 = .ok (UInt16.ofNat (e1.toNat * 256 + e2.toNat)) := by
-      unfold Slice.u16In
-      rw [Slice.sliceR_ok _ 2 4 (by omega) (by simp; omega)]
-      simp only [Res.bind_ok, hdrop]
-      rfl
-    rw [a, c]
-    rfl
-  obtain ⟨hdr, bms, hvb, hbl⟩ := HelloElemVersionBitmap_big HelloElemVersionBitmap.new ⟨b.buf.drop 8, b.len - 8⟩ hwf8
-    (by simp; omega)
-  simp only [hE, hvb, Res.bind_ok]
-  have hl : HelloElemVersionBitmap.len (.obj "HelloElemVersionBitmap" [hdr, .list bms]) = .ok 0 := by
-    simp only [HelloElemVersionBitmap.len, hbl]
-    rfl
-  simp only [hl, Res.bind_ok]
-  rfl
-
-example : parse 0 (Slice.exact ([4, 0, 0, 8, 0, 0, 0, 0, 0, 1, 0, 8] ++ List.replicate 65532 0)) = .spin :=
-  Hello_spin 4 0 8 0 0 0 0 0 8 _ List.length_replicate 0
+      · simp only []; omega
+    · intro st _; post_auto
 
 end OFV.Model
